@@ -105,12 +105,10 @@ def fn_short(key):
 
 def contains(sv, pred, depth=0):
     """does any subterm of sv satisfy pred"""
-    if depth > 8:
+    if depth > 8 or not isinstance(sv, tuple) or not sv:
         return False
-    if pred(sv):
+    if isinstance(sv[0], str) and pred(sv):
         return True
-    if not isinstance(sv, tuple):
-        return False
     for x in sv[1:]:
         if isinstance(x, tuple):
             if x and isinstance(x[0], str) and contains(x, pred, depth + 1):
